@@ -451,7 +451,7 @@ MANIFEST = dict(
     'interference variants (WhiteningBD, EnhancedBD) are not decided.',
     note='svd/pinv/matrix_rank contract stubs with generic-rank assumption; '
     'floats as reals; small sizes; ext-int variants outside'
-    ' Concrete data-representation / scale / boundary probes of the real'
+    '. Concrete data-representation / scale / boundary probes of the real'
     ' code (dtype, container and memory-layout variants, argument'
     ' immutability, magnitudes) accompany the symbolic runs; they are'
     ' differential runs, not solver verdicts.',
